@@ -23,6 +23,15 @@ CHECKS = {
          "every part's width/height/tag rows, and, for mutable parts, the parent after a distinct mark was written through each part.",
     note="Trusted: TLC/Apalache, harness tag reading. size = 0 / parts = 0 are unrepresentable (NonZeroU32). UnsafeImageMut is reached through the mutable default implementation only.",
     design="4/C14", technique=TECH + "; Apalache lemma for the band arithmetic"),
+ "C15": dict(
+    text="The ideal fit-crop (exact rationals, Geometry!Fit*) is model-checked for all sizes <= 9 and 36 centerings (inside, aspect, full in one "
+         "dimension, margin split by the clamped centering) and its inside-ness is an Apalache lemma for all sizes 1..65535. The implementation's f64 results "
+         "for a boundary lattice^4, near-equal-ratio and seeded quadruples (~20k quick) are logged as exact dyadic rationals and judged by TLC with exact "
+         "arithmetic: non-negative origin, f64-rounded right/bottom edge <= source size (the library's own validation), branch choice, full dimension exact, "
+         "aspect and centering within 2^-50 relative; real resizes with fit_into_destination must return Ok.",
+    note="Inside-ness is judged as the library's validation computes it (f64 sum, ties-to-even, modelled exactly in Wide!DyRound53) plus at most one rounding error of the exact sum. "
+         "Centerings are dyadic rationals; NaN excluded by the property.",
+    design="4/C15", technique=TECH + " with exact dyadic arithmetic; Apalache lemma"),
 }
 NA_REASON = "check not built yet (work in progress; DESIGN.md section 7 lists the build order)"
 
